@@ -10,11 +10,10 @@ and, for every call that touches a path under `root`,
       non-mutating accesses (open for reading, isfile/isdir/exists/listdir) are logged as queries `{"q":…}` — they
       give the read-set of the resume logic;
   (2) KILLS the process with os._exit(EXIT_KILLED) immediately `before` or `after` the k-th mutating operation, or in
-      the middle of it (`partial`: only a prefix of the bytes of that write reaches the file).
-Nothing of the process survives a kill (no finally/atexit/flush) — exactly like SIGKILL; data that the code had
-written reaches the file at once (the proxy flushes after each write), so the file content at a kill point is
-"everything written before, plus a prefix of the current write".  The state in which buffered data is lost
-entirely (open-for-write truncated the file, nothing arrived) is the crash point `before` the first write.
+      the middle of it (`partial`: only a prefix of the bytes of that `flush` reaches the file).
+Nothing of the process survives a kill (no finally/atexit/flush) — exactly like SIGKILL.  Write handles are buffered like
+Python file objects (see _WFile): write() = op `write` (data in the process' buffer, lost by a kill), the data reaches the
+file in the op `flush` issued by close()/flush(); ops per written file: openw|opena, write…, flush, close.
 
 Usage as a program (this is what the property modules start through `run_worker`):
     python _crash_fsfault.py <job.json>
@@ -273,10 +272,14 @@ class Injector:
 
 
 class _WFile:
-    """proxy around a real file object opened for writing: records write/close, flushes after each write"""
+    """proxy around a real file object opened for writing.  Like a Python file object it BUFFERS: write() only records the
+    data (op `write`, no effect on the file); the data reaches the file when the buffer is flushed — at close() (ops `flush`
+    then `close`) or at an explicit flush().  A kill between write() and close() therefore loses the data (the file is as
+    open() left it), a `partial` kill of a `flush` leaves a prefix.  The buffer is unbounded (CPython flushes every 8 KiB;
+    the reachable file contents — prefixes of the written data — are the same, attributed to different operations)."""
 
     def __init__(self, inj, f, rp, binary):
-        self.__dict__.update(_inj=inj, _f=f, _rp=rp, _bin=binary, _closed=False)
+        self.__dict__.update(_inj=inj, _f=f, _rp=rp, _bin=binary, _closed=False, _buf=[])
 
     def write(self, data):
         inj = self._inj
@@ -284,6 +287,26 @@ class _WFile:
             return len(data)
         if not isinstance(data, str):
             data = bytes(data)
+        n = len(data)
+        head = data[:inj.keep]
+        if not isinstance(head, str):
+            head = head.decode("latin1")
+
+        def perform():
+            self._buf.append(data)
+            return n
+        return inj.op("write", self._rp, perform, n=n, head=head if n <= inj.keep else None)
+
+    def writelines(self, lines):
+        for l in lines:
+            self.write(l)
+
+    def _flush_op(self):
+        """the buffered data reaches the file (one op; the kill may hit in the middle of it)"""
+        inj = self._inj
+        if not self._buf:
+            return
+        data = self._buf[0][:0].join(self._buf)
         n = len(data)
         k = inj.count
         if inj.kill_at == k and inj.when == "partial":
@@ -293,32 +316,31 @@ class _WFile:
             if cut > 0:
                 self._f.write(data[:cut])
                 self._f.flush()
-            inj._emit(dict(i=k, op="write", path=self._rp, n=n, cut=cut))
-            inj._die(f"partial write {self._rp} {cut}/{n}")
-        head = data[:inj.keep]
-        if not isinstance(head, str):
-            head = head.decode("latin1")
+            inj._emit(dict(i=k, op="flush", path=self._rp, n=n, cut=cut))
+            inj._die(f"partial flush {self._rp} {cut}/{n}")
 
         def perform():
-            r = self._f.write(data)
+            self._f.write(data)
             self._f.flush()
-            return r
-        return inj.op("write", self._rp, perform, n=n, head=head if n <= inj.keep else None)
+            del self._buf[:]
+        inj.op("flush", self._rp, perform, n=n)
 
-    def writelines(self, lines):
-        for l in lines:
-            self.write(l)
+    def flush(self):
+        if self._inj.dead:
+            return None
+        self._flush_op()
+        return self._f.flush()
 
     def close(self):
         if self._closed:
             return None
-        self.__dict__["_closed"] = True
         if self._inj.dead:
+            self.__dict__["_closed"] = True
+            del self._buf[:]
             return self._f.close()
+        self._flush_op()
+        self.__dict__["_closed"] = True
         return self._inj.op("close", self._rp, self._f.close)
-
-    def flush(self):
-        return None if self._inj.dead else self._f.flush()
 
     def __enter__(self):
         return self
@@ -339,7 +361,7 @@ class _WFile:
     def __del__(self):
         try:
             if not self._closed:
-                self._f.close()
+                self._f.close()      # the proxy's own buffer is dropped, like the buffer of a killed process
         except Exception:
             pass
 
